@@ -8,6 +8,7 @@ import (
 	"reflect"
 	"time"
 
+	"github.com/uhppoted/uhppote-core/messages"
 	"github.com/uhppoted/uhppote-core/types"
 	"github.com/uhppoted/uhppote-core/uhppote"
 
@@ -176,6 +177,30 @@ func c17(c *Ctx) {
 			}
 		}
 
+		// ---- two calls in a row for one controller, each with a map of its own: the map given to the first call is still what it
+		// was after the second (the application goes on using it - for the next controller, say)
+		if i%3 == 0 {
+			ak := rm.FindOp("ActivateKeypads")
+			s := r.Serial()
+			if len(cfg.Devices) > 0 && r.Chance(0.7) {
+				s = cfg.Devices[r.Pick(len(cfg.Devices))].ID
+			}
+			d.Reset()
+			d.Script = func(adapter.Invocation) ([][]byte, error) { rep := okReply(ak, s); rep[8] = 1; return [][]byte{rep}, nil }
+			m1 := map[uint8]bool{1: true, 2: false, 3: true, 4: false}
+			t1 := fmt.Sprintf("%#v", m1)
+			u.ActivateKeypads(s, m1)
+			m2 := map[uint8]bool{1: false, 2: true, 3: false, 4: true, 5: true}
+			t2 := fmt.Sprintf("%#v", m2)
+			u.ActivateKeypads(s, m2)
+			u.ActivateKeypads(s, map[uint8]bool{2: true})
+			c.Res.Eval(1)
+			if now := fmt.Sprintf("%#v", m1); now != t1 || fmt.Sprintf("%#v", m2) != t2 {
+				c.Res.Violate("C17:argument-modified:ActivateKeypads:by-a-later-call", fmt.Sprintf("the maps passed to earlier ActivateKeypads calls for controller %d were %s and %s; after later calls for the same controller they are %s and %#v", s, t1, t2, now, m2), nil, caseNo)
+			}
+			d.Reset()
+		}
+
 		// ---- calls: where do they go?
 		ops := reqOps()
 		for k := 0; k < 4; k++ {
@@ -255,6 +280,7 @@ func c17(c *Ctx) {
 					before = fmt.Sprintf("%#v", readers)
 					u.ActivateKeypads(serial, readers)
 					after = fmt.Sprintf("%#v", readers)
+
 				case "SetDoorPasscodes":
 					codes := append([]uint32{}, aux.Passcodes...)
 					before = fmt.Sprintf("%#v", codes)
@@ -454,7 +480,7 @@ func c17(c *Ctx) {
 				}
 			}
 
-			dev := uhppote.Device{Name: "x", DeviceID: r.Serial(), Address: types.ControllerAddr{AddrPort: netip.MustParseAddrPort("10.1.2.3:60000")}, Doors: []string{"a", "b", "c"}[:r.Pick(4)],
+			dev := uhppote.Device{Name: "x", DeviceID: r.Serial(), Address: types.ControllerAddr{AddrPort: netip.MustParseAddrPort([]string{"10.1.2.3:60000", "[::ffff:192.168.1.100]:60000", "0.0.0.0:0", "[::1]:60000", "10.1.2.3:1"}[r.Pick(5)])}, Doors: []string{"a", "b", "c"}[:r.Pick(4)],
 				TimeZone: []*time.Location{time.UTC, nil, time.Local, time.FixedZone("Q", 3600)}[r.Pick(4)], Protocol: []string{"tcp", "udp", "any", "", "TCP", "xyz"}[r.Pick(6)]}
 			dcl := dev.Clone()
 			c.Res.Eval(1)
@@ -474,6 +500,25 @@ func c17(c *Ctx) {
 				if grownClone[n] != "added-to-the-clone" || grownOrig[n] != "added-to-the-original" {
 					c.Res.Violate("C17:clone:device-shares-storage", fmt.Sprintf("a door name appended to a Device clone (%d names, capacity %d) and one appended to the original ended up in the same place: %q / %q", n, cap(dev.Doors), grownClone[n], grownOrig[n]), nil, caseNo)
 				}
+			}
+		}
+
+		// ---- messages obtained from the public dispatchers are values of their own too: one is held while the next datagram of the
+		// same type is dispatched (and the buffers are overwritten)
+		if i%8 == 4 {
+			gd := rm.FindOp("GetDevice")
+			b1, b2 := validReply(r, gd, r.Serial(), rm.Vals{}), validReply(r, gd, r.Serial(), rm.Vals{})
+			if v1, err := messages.UnmarshalResponse(b1); err == nil && v1 != nil {
+				t1 := fmt.Sprintf("%+v", reflect.ValueOf(v1).Elem().Interface())
+				v2, _ := messages.UnmarshalResponse(b2)
+				for k := range b1 {
+					b1[k], b2[k] = 0xee, 0xdd
+				}
+				c.Res.Eval(1)
+				if now := fmt.Sprintf("%+v", reflect.ValueOf(v1).Elem().Interface()); now != t1 {
+					c.Res.Violate("C17:result-aliases-buffer:dispatcher", fmt.Sprintf("a message returned by messages.UnmarshalResponse changed after the next datagram of its type was dispatched and the buffers were reused: %s -> %s", truncateStr(t1, 300), truncateStr(now, 300)), nil, caseNo)
+				}
+				_ = v2
 			}
 		}
 
